@@ -146,4 +146,7 @@ def run(ctx, res):
     rule_x_barrier(prog, res, tus=["storage/tiff.cpp", "storage/side-by-side-tiff.cpp"])
     res.require_min("X-BARRIER", 20)
     res.require_min("FD/FAIL-SIM", 4)
+    from ..filecreate import rule_file_create
+    res.guard(rule_file_create, prog, res, ("FD-ONCE", "LOCK-FIRST"))
+    res.require_min("R-CREATE", 2)
     res.require_min("LOOP-PROGRESS", 1)
